@@ -75,10 +75,10 @@ mut("C03-symlink-own-name", "C03", "file.go", "	f.path = dest\n\n	return f.paren
 mut("C03-parents-relative-to-cwd", "C03", "file.go", "		path = filepath.Join(filepath.Dir(f.path), path)", "		path = filepath.Clean(path)")
 mut("C03-parent-false-ignored", "C03", "file.go", "	if noParent {\n		if len(parents) > 0 {", "	if noParent && len(f.docs) > 1 {\n		if len(parents) > 0 {")
 mut("C03-revert-skip-parent-fix", "C03", "parser.go", "	for _, doc := range f.docs {\n		doc.PopMapValue(\"$parent\")\n	}\n", "")
-mut("C03-unreadable-parent-skipped", "C03", "file.go", "		parentFiles, err := p.loadFileAndParents(parent, f)\n		if err != nil {\n			return nil, err\n		}", "		parentFiles, err := p.loadFileAndParents(parent, f)\n		if err != nil {\n			if errors.Is(err, ErrMissingFile) || errors.Is(err, ErrCircularRef) || errors.Is(err, Err) {\n				return nil, err\n			}\n			continue\n		}", "an I/O error on a parent layer (not a bkl error) silently skips the layer")
+mut("C03-unreadable-parent-skipped", "C03", "file.go", "		parentFiles, err := p.loadFileAndParents(parent, f)\n		if err != nil {\n			return nil, err\n		}", "		parentFiles, err := p.loadFileAndParents(parent, f)\n		if err != nil {\n			if strings.Contains(err.Error(), \"bkl error\") {\n				return nil, err\n			}\n			continue\n		}", "an I/O error on a parent layer (not a bkl error) silently skips the layer")
 # ---- C20
 mut("C20-continue-on-eval-error", "C20", "wrapper/wrapper.go", "		err = b.MergeFileLayers(realPath)\n		if err != nil {\n			fatal(err)\n		}", "		err = b.MergeFileLayers(realPath)\n		if err != nil {\n			continue\n		}")
-mut("C20-format-of-real-file", "C20", "wrapper/wrapper.go", "		err = b.OutputToFile(tmp.Name(), f)", "		err = b.OutputToFile(tmp.Name(), filepath.Ext(realPath)[1:])")
+mut("C20-format-of-real-file", "C20", "wrapper/wrapper.go", "		err = b.OutputToFile(tmp.Name(), f)", "		_ = f\n		err = b.OutputToFile(tmp.Name(), filepath.Ext(realPath)[1:])")
 mut("C20-wrong-argv0", "C20", "wrapper/wrapper.go", "append([]string{cmd}, args...)", "append([]string{cmdPath}, args...)")
 mut("C20-parser-hoisted", "C20", "wrapper/wrapper.go", "	for i, arg := range args {\n		realPath, f, err := bkl.FileMatch(arg)\n		if err != nil {\n			continue\n		}\n\n		b, err := bkl.New()\n		if err != nil {\n			fatal(err)\n		}\n", "	b, err := bkl.New()\n	if err != nil {\n		fatal(err)\n	}\n\n	for i, arg := range args {\n		realPath, f, err := bkl.FileMatch(arg)\n		if err != nil {\n			continue\n		}\n")
 mut("C20-dashdash-dropped", "C20", "wrapper/wrapper.go", "	args := slices.Clone(os.Args[1:])\n", "	args := slices.Clone(os.Args[1:])\n	args = slices.DeleteFunc(args, func(a string) bool { return a == \"--\" })\n")
